@@ -23,6 +23,10 @@ CHECKS = {
  'C05': dict(engine='B', technique='symbolic execution of the real HLLC solver IR, two runs in one path (relational), z3 over the IEEE-UF abstraction of binary64 (rounded ops uninterpreted + ground IEEE-true axioms)',
    text='Bit-exact antisymmetry F(R,L,-n) == -F(L,R,n) of the whole HLLC flux (mass, momentum, energy), including one-sided vacuum and vacuum generation, on every tie-free feasible path pair; z3 unsat per obligation. This is the conservation-critical clause and is exactly what sampling cannot settle (it needs moving gas next to a vacuum).',
    note='Stated exclusions: ties of computed comparisons, computed quantities guarded by +DBL_MIN within 2^-940 of zero, misordered rounded fan edges on vacuum generation, inputs 0 or within [2^-100,2^100] (no overflow/underflow). Outside: Galilean invariance, textbook-HLLC equality, continuity, 1.5 c_s clause (round-off level statements).', ref='DESIGN.md section 5 C05'),
+
+ 'C11': dict(engine='B', technique='symbolic execution of the real ExactRiemannSolver sampling code with z3 over the IEEE-UF abstraction (relational: mirror pairs, vacuum vs fan, code vs textbook term shapes)',
+   text='Decides the loop-free sampling structure for symbolic states, star state and sampling speed: left/right mirror consistency, vacuum solutions joining the rarefaction fans as identical terms, regime boundaries, jump/isentropic relations as term shapes. The headline accuracy clause (iterative P* over pow in binary64) is a numerical-analysis statement outside any solver here and is NOT claimed.',
+   note='Partial: star-pressure accuracy, continuity as numbers and agreement with a reference solver are outside. Ties excluded; stated domain [2^-100,2^100].', ref='DESIGN.md section 5 C11'),
 }
 NA = {
 }
@@ -30,7 +34,7 @@ PENDING = 'check not built yet in this round (planned, see DESIGN.md section 5)'
 ALL = ['C%02d' % i for i in range(1, 21)]
 m = {'version': 1, 'setup_cmd': 'python3 -c "import sys; sys.exit(0)"',
      'hooks': {'guard': 'CMACIONIZE_VERIF', 'enable': 'harness TUs are compiled with -DCMACIONIZE_VERIF by lib/vlib.py (clang++-14 -> LLVM IR); the repository build itself is not rebuilt with the guard',
-               'baseline_off_cmd': 'cmake --build /repo/_build -j16 >/dev/null && ctest --test-dir /repo/_build -j8 --timeout 900', 'source_commits': [], 'add_only': True},
+               'baseline_off_cmd': 'cmake --build /repo/_build -j16 -- -k 0 >/dev/null 2>&1; ctest --test-dir /repo/_build -j8 --timeout 900', 'source_commits': [], 'add_only': True},
      'engines': [{'name': 'A', 'path': 'lib/irc.py', 'serves_properties': sorted(k for k, v in CHECKS.items() if 'A' in v['engine']), 'kind_free_text': A},
                  {'name': 'B', 'path': 'lib/irz.py', 'serves_properties': sorted(k for k, v in CHECKS.items() if 'B' in v['engine']), 'kind_free_text': B}],
      'checks': [], 'not_applicable': [], 'notes': 'Every check regenerates its encoding from /repo/src on each run (clang -> IR -> C/z3). Exit 2 + BROKEN-CHECK means the machinery itself failed (timeout, unwinding bound, translation-validation mismatch); it is never reported as success.'}
